@@ -38,7 +38,7 @@ m = {
     'engines': [{'name': 'rocq-model+correspondence', 'path': 'check', 'serves_properties': sorted(CLAIMS), 'kind_free_text': 'Coq 8.16 theorems about a Gallina model (coq/), constants regenerated from the C sources, model extracted to OCaml and run against the real C code (harness/) on generated cases; extracted spec predicates evaluated on the implementation output'}],
     'checks': checks,
     'not_applicable': na,
-    'notes': 'see DESIGN.md; known_findings.json (committed, never written at run time) lists the genuine defects found: F1-F23 fixed (each with its fix: commit in /repo; a fixed entry suppresses nothing), F24 (C08, zero-length User-Name) known and not repaired: ./check C08 prints a KNOWN-FINDING line for it and exits 0',
+    'notes': 'see DESIGN.md; known_findings.json (committed, never written at run time) lists the genuine defects found: F1-F23 and F25 fixed (each with its fix: commit in /repo; a fixed entry suppresses nothing), F24 (C08, zero-length User-Name) known and not repaired: ./check C08 prints a KNOWN-FINDING line for it and exits 0',
 }
 json.dump(m, open(os.path.join(V, 'MANIFEST.json'), 'w'), indent=1)
 print('claimed:', ' '.join(sorted(CLAIMS)), '| not yet:', ' '.join(x['property_id'] for x in na))
